@@ -554,7 +554,9 @@ class Model(core.BfsModel):
             k = ev[0]
             if k == "rm" and (not w.removable() or (ev[1] == "last" and len(w.removable()) < 2)):
                 continue
-            if k == "build" and len(w.tc.circuits) >= self.max_circuits:
+            if k in ("build", "buildsa") and len(w.tc.circuits) >= self.max_circuits:
+                continue
+            if k == "buildsa" and w.inst[1] is None:
                 continue
             if k == "detach" and not attached:
                 continue
@@ -595,6 +597,15 @@ class Model(core.BfsModel):
             w.send_anon(BURST)
         elif k == "build":
             w.build(ev[1], ev[2])
+        elif k == "buildsa":
+            # an anonymized send k deliveries into a circuit's handshake (the circuit is then half-built), rest flushed
+            w.build(ev[1], ev[2])
+            w.loop.settle()
+            for _ in range(ev[3]):
+                if not w.inflight:
+                    break
+                w.deliver(0)
+            w.send_anon()
         elif k == "rm":
             w.remove(ev[1])
         elif k == "tick":
@@ -807,7 +818,12 @@ FULLX = FULL + [("xflags", "X", False), ("xflags", "X", True)]
 # the pseudonym route: "sa" = identity overlay sends, "sp" = attestation overlay sends
 PSEUDO = [("sa",), ("sp",), ("build", "X", 1), ("build", "Y", 1), ("rm", "first"), ("tick",), ("detach",), ("attach", 2),
           ("toggle",), ("xflags", "X", False)]
-EVERYTHING = FULLX + [e for e in LIFE if e not in FULLX]
+# an anonymized send in the middle of a circuit's handshake (after k deliveries: 2 = first hop confirmed, 4-5 = the
+# extension is under way), so that whatever the library remembers about a half-built circuit is later used on the
+# finished one
+MID = ([("sa",), ("rm", "first"), ("tick",), ("attach", 1), ("attach", 2), ("buildsa", "X", 1, 1)]
+       + [("buildsa", e, 2, k) for e in ("Y", "X") for k in (1, 2, 3, 4, 5)])
+EVERYTHING = FULLX + [e for e in LIFE if e not in FULLX] + [e for e in MID if e not in FULLX]
 CORE = [("sa",), ("burst",), ("build", "X", 1), ("build", "Y", 1), ("build", "X", 2),
         ("rm", "first"), ("tick",), ("detach",), ("attach", 2), ("toggle",)]
 CORE_QUICK = [e for e in CORE if e != ("burst",)]    # quick: the burst (most expensive event) only in FULL; see notes
@@ -837,10 +853,11 @@ def configs(ctx: core.Ctx) -> list[tuple[str, list, int, int, str]]:
     """(name, alphabet, depth, max circuits started by build events, construction route of node N)."""
     cfg = ([("core", CORE, 9, 2, "wired"), ("full", FULLX, 5, 3, "wired"), ("life", LIFE, 8, 2, "wired"),
             ("flags", FLAGS, 7, 2, "wired"), ("service", FULL, 4, 3, "service"), ("service+stats", FULL, 4, 3, "service+stats"),
-            ("pseudonym", PSEUDO, 5, 2, "pseudonym")] if ctx.thorough else
+            ("pseudonym", PSEUDO, 5, 2, "pseudonym"),
+            ("mid", MID, 5, 2, "wired")] if ctx.thorough else
            [("core", CORE_QUICK, 7, 2, "wired"), ("full", FULL, 4, 3, "wired"), ("life", LIFE, 5, 2, "wired"),
             ("flags", FLAGS, 4, 2, "wired"), ("service", FULL, 2, 3, "service"), ("service+stats", FULL, 3, 3, "service+stats"),
-            ("pseudonym", PSEUDO, 3, 2, "pseudonym")])
+            ("pseudonym", PSEUDO, 3, 2, "pseudonym"), ("mid", MID, 3, 2, "wired")])
     cap = int(os.environ.get("C07_MAX_DEPTH", "0") or 0)     # screening aid (mutant runs); reported as not exhaustive
     return [(n, a, min(d, cap) if cap else d, mc, route) for n, a, d, mc, route in cfg]
 
